@@ -1,6 +1,6 @@
 SPECIFICATION MSpec
-CONSTANTS HighLiteral = TRUE
-          MaxLen = 2
+CONSTANTS HighLiteral = FALSE
+          MaxLen = 1
           Alphabet <- Bytes
 INVARIANT RoundTripInv
 CHECK_DEADLOCK FALSE
